@@ -46,4 +46,5 @@ def C11_read_after_indented_empty_comment(case, params):
         fixed[key] = eol.join(lines)
     if not any_hit:
         return False
-    return M.check_pair(fixed["text_a"], fixed["text_b"], case["width"], case.get("files_a"), case.get("files_b")) is None
+    return M.check_pair(fixed["text_a"], fixed["text_b"], case["width"], case.get("files_a"), case.get("files_b"),
+                        replace=case.get("replace", True)) is None
